@@ -495,3 +495,135 @@ func instrDominates(a, b ssa.Instruction) bool {
 	}
 	return a.Block().Dominates(b.Block())
 }
+
+// feasibleAvoiding answers whether some feasible path from the function's entry reaches `target` without executing any of the
+// instructions in `avoid`. Feasibility is judged per acyclic path from the nil tests taken along it: each phi is resolved by the
+// edge the path came in on, and a test `v == nil` / `v != nil` whose answer contradicts an earlier test of the same value on
+// this path prunes the path. Returns (answer, decided); decided is false when the path budget is exhausted.
+func feasibleAvoiding(fn *ssa.Function, avoid []ssa.Instruction, target ssa.Instruction) (bool, bool) {
+	avoidAt := map[*ssa.BasicBlock]int{}
+	for _, a := range avoid {
+		i := instrIndex(a)
+		if j, ok := avoidAt[a.Block()]; !ok || i < j {
+			avoidAt[a.Block()] = i
+		}
+	}
+	budget := 20000
+	found := false
+	onPath := map[*ssa.BasicBlock]bool{}
+	var walk func(b, pred *ssa.BasicBlock, phis map[*ssa.Phi]ssa.Value, facts map[ssa.Value]bool)
+	resolve := func(v ssa.Value, phis map[*ssa.Phi]ssa.Value) ssa.Value {
+		for i := 0; i < 16; i++ {
+			p, ok := v.(*ssa.Phi)
+			if !ok {
+				break
+			}
+			r, ok := phis[p]
+			if !ok {
+				break
+			}
+			v = r
+		}
+		return v
+	}
+	walk = func(b, pred *ssa.BasicBlock, phis map[*ssa.Phi]ssa.Value, facts map[ssa.Value]bool) {
+		if found || budget <= 0 || onPath[b] {
+			return
+		}
+		budget--
+		limit := len(b.Instrs)
+		if i, ok := avoidAt[b]; ok {
+			limit = i
+		}
+		if target.Block() == b && instrIndex(target) < limit {
+			found = true
+			return
+		}
+		if limit < len(b.Instrs) {
+			return
+		}
+		// resolve this block's phis by the incoming edge
+		if pred != nil {
+			idx := -1
+			for i, p := range b.Preds {
+				if p == pred {
+					idx = i
+				}
+			}
+			np := map[*ssa.Phi]ssa.Value{}
+			for k, v := range phis {
+				np[k] = v
+			}
+			for _, in := range b.Instrs {
+				p, ok := in.(*ssa.Phi)
+				if !ok {
+					break
+				}
+				if idx >= 0 {
+					np[p] = resolve(p.Edges[idx], phis)
+				}
+			}
+			phis = np
+		}
+		onPath[b] = true
+		defer func() { onPath[b] = false }()
+		iff, ok := b.Instrs[len(b.Instrs)-1].(*ssa.If)
+		if !ok {
+			for _, s := range b.Succs {
+				walk(s, b, phis, facts)
+			}
+			return
+		}
+		// a nil test: which value, and which successor means "is nil"
+		var tested ssa.Value
+		nilSucc := -1
+		if bin, ok := iff.Cond.(*ssa.BinOp); ok && (bin.Op == token.EQL || bin.Op == token.NEQ) {
+			x, y := bin.X, bin.Y
+			if isNilConst(x) {
+				x, y = y, x
+			}
+			if isNilConst(y) {
+				tested = resolve(x, phis)
+				nilSucc = 0
+				if bin.Op == token.NEQ {
+					nilSucc = 1
+				}
+			}
+		}
+		for i, s := range b.Succs {
+			if tested == nil {
+				walk(s, b, phis, facts)
+				continue
+			}
+			isNil := i == nilSucc
+			if isNilConst(tested) {
+				if !isNil {
+					continue
+				}
+				walk(s, b, phis, facts)
+				continue
+			}
+			if known, ok := facts[tested]; ok {
+				if known != isNil {
+					continue // contradicts an earlier test on this path
+				}
+				walk(s, b, phis, facts)
+				continue
+			}
+			nf := map[ssa.Value]bool{}
+			for k, v := range facts {
+				nf[k] = v
+			}
+			nf[tested] = isNil
+			walk(s, b, phis, nf)
+		}
+	}
+	if len(fn.Blocks) == 0 {
+		return true, false
+	}
+	walk(fn.Blocks[0], nil, map[*ssa.Phi]ssa.Value{}, map[ssa.Value]bool{})
+	if found {
+		return true, true
+	}
+	return false, budget > 0
+}
